@@ -34,8 +34,8 @@ Definition gen_Scheduler_send_packet_from_0 (s : sendp_st) (size : Z) (flow : Z)
 (* Scheduler.send_packet, program point 1: resumed after line 69: `yield self.env.timeout(packet.size * 8.0 / self.rate)`; objects bound: packet *)
 Definition gen_Scheduler_send_packet_from_1 (s : sendp_st) (size : Z) (flow : Z) (rate : Q) (out_set : bool)
   : sendp_st * list sendp_fx * sendp_next :=
-  let queue_byte_size1 := (gen_upd (sd_queue_byte_size s) flow (((sd_queue_byte_size s) flow) - size)%Z) in
   let queue_count1 := (gen_upd (sd_queue_count s) flow (((sd_queue_count s) flow) - (1)%Z)%Z) in
+  let queue_byte_size1 := (gen_upd (sd_queue_byte_size s) flow (((sd_queue_byte_size s) flow) - size)%Z) in
   let fx1 :=
     (if out_set
      then [(FxOutPut (queue_count1 flow) (queue_byte_size1 flow))]
